@@ -56,6 +56,18 @@ CLAIMS["C13"] = dict(
               "fields is equal in two runs with equal configuration. Dispositions (14 fields) rest on stated stream properties (every block "
               "quote closes, the stream ends with an end-of-stream token). Third-party plugins are not covered.")
 
+CLAIMS["C12"] = dict(
+    text="Proof of the premises of rule independence: P1 a frame obligation for every method of the 46 rules and their helper classes "
+         "(582 methods/modules): every store, del and mutating call has a root that is self or a freshly created object; the delivered "
+         "token, the context outside its reporting/fix API, module globals and class attributes are never written; token mutators are only "
+         "applied to copies; set_current_fix_line is reached only under in_fix_mode; P2 helpers are per instance; P3 the dispatchers deliver "
+         "the same token/line/context to every rule of the list and write only context.line_number (pyvc, loop invariants); P4 collection "
+         "is append + key-sorted output + per-entry filtering (pyvc). The union property follows by the composition argument of DESIGN.md 5/C12.",
+    note=TB + "The composition step is on paper. Ownership is decided syntactically (fresh = constructor / copy / literal / slice / str method, "
+              "or a private-method parameter that receives such a value at every call site); a harmless change outside this discipline is "
+              "reported as a violation of frame.<Class>.<method> and needs the annotation list to be extended. Third-party rules are assumed "
+              "to respect the same frame. Pragma handling shared between rules (compile_pragmas) is covered under C11.")
+
 NA = {
     "C01": "totality of the ~60 kLoC parser is a postcondition of TokenizedMarkdown.transform; no contract chain within reach without a Python deductive verifier (DESIGN.md 7)",
     "C02": "round-trip of parser + 5 kLoC regenerator needs the token stream specified as an encoding of the document (C03+C04+C05 in full) first (DESIGN.md 7)",
